@@ -77,6 +77,10 @@ type triple struct {
 
 var sharedTriple triple
 
+type named struct{ a, b int }
+
+func (n named) String() string { return fmt.Sprint("n", n.a, n.b) }
+
 // copies exercises multi-word copies in every form the instrumenter splits.
 func copies() string {
 	t := triple{a: 1, b: 2, c: [3]int{3, 4, 5}}
@@ -99,7 +103,20 @@ func copies() string {
 		t.b = 0
 	}
 	q := sharedTriple
-	return fmt.Sprint(t.a, u.a, v.a, v.b, v.c, w.a, w.b, arr, q.c, ";")
+	// copies the splitter must leave alone
+	var boxed fmt.Stringer
+	boxed = named{a: 1, b: 2} // a struct assigned to an interface variable
+	byKey := map[string]triple{}
+	byKey["k"] = triple{a: 4, b: 5} // a map element
+	{
+		w := *w // the new name shadows the one on the right
+		w.a = 100
+		q.c[0] += w.a
+	}
+	if t := t; t.a == 1 { // shadowing in an init clause
+		q.c[1] += t.b
+	}
+	return fmt.Sprint(t.a, u.a, v.a, v.b, v.c, w.a, w.b, arr, q.c, boxed, byKey["k"].b, ";")
 }
 
 var lazyTable = sync.OnceValue(func() []int { return []int{1, 2, 3} })
